@@ -889,7 +889,8 @@ def c03(ctx):
                           [('required', 'ok', 'a Required provider is not in the bound chain', None),
                            ('unjustified', '-', 'included provider(s) that nothing receives anything from', 'unjustified_finaldrop')],
                           lambda c: any(f['inc'] == '0' and int(f['id']) < 900 for f in c.s7_funcs()), rule, extra,
-                          modes=(('run', None, 'default'), ('run', None, 'plain'), ('run', 800 if ctx.tier == 'quick' else 10000, 'cluster')))
+                          modes=(('run', None, 'default'), ('run', None, 'plain'), ('run', 800 if ctx.tier == 'quick' else 10000, 'cluster'),
+                                 ('run', 600 if ctx.tier == 'quick' else 8000, 'reorderplain')))
 
 
 @prop('C15')
